@@ -91,7 +91,51 @@ def main(argv=None):
         tb = traceback.format_exc()
         print(tb)
         ctx.violations.append(('harness', 'check aborted: ' + tb[-1500:], None))
+    search_for_failing_input(ctx)
     return ctx.finish()
+
+
+def search_for_failing_input(ctx):
+    '''A proof obligation or the correspondence broke (or the check itself) but the oracle has
+    no failing input yet: run the property's thorough generator once more, with another seed,
+    in a child process under a time limit, and adopt the oracle violations it finds.  The
+    violation is reported either way; without a failing input the VIOLATION line ends with
+    no-failing-input-found.'''
+    import json
+    import os
+    import re
+    import subprocess
+    import sys
+    if os.environ.get('VERIF_SEARCH') or ctx.tier != 'quick':
+        return
+    broken = ctx.corr_broken or [v for v in ctx.violations if v[0] != 'oracle']
+    if not broken or [v for v in ctx.violations if v[0] == 'oracle']:
+        return
+    env = dict(os.environ)
+    env['VERIF_SEARCH'] = '1'
+    limit = int(os.environ.get('VERIF_SEARCH_TIMEOUT', '300'))
+    cmd = [sys.executable, '-W', 'ignore', '-m', 'vp.main', ctx.pid, '--tier', 'thorough',
+           '--seed', str(ctx.seed + 7919)]
+    try:
+        proc = subprocess.run(cmd, env=env, timeout=limit, stdout=subprocess.PIPE,
+                              stderr=subprocess.STDOUT, text=True)
+        out = proc.stdout
+    except subprocess.TimeoutExpired as exc:
+        out = exc.stdout or ''
+        if isinstance(out, bytes):
+            out = out.decode('utf-8', 'replace')
+        ctx.notes.append(f'search phase: thorough generator stopped after {limit} s')
+    found = 0
+    for path in re.findall(r'^VIOLATION property=\S+ replay=(\S+)$', out, re.M):
+        try:
+            data = json.load(open(path))
+        except (OSError, ValueError):
+            continue
+        if data.get('kind') == 'oracle':
+            ctx.violations.append(('oracle', data['what'], data.get('case')))
+            found += 1
+    ctx.notes.append(f'search phase after a broken proof/correspondence: thorough generator through the '
+                     f'oracle, {found} failing input(s) found')
 
 
 if __name__ == '__main__':
